@@ -357,7 +357,8 @@ var errFault = errors.New("injected I/O fault")
 
 // budgetWriter accepts exactly `budget` bytes (mode "once": fails exactly one write, then recovers).  mode "short": the write that crosses the budget stores what fits
 // and returns (n < len(p), error); mode "next": it stores nothing of that write and returns (0, error); "shortwrite" / "eof": as "short" / "next" with
-// io.ErrShortWrite / io.EOF as the error value; "onceshort": one short write with an error, then the destination recovers.
+// io.ErrShortWrite / io.EOF as the error value; "onceshort": one short write with an error, then the destination recovers;
+// "fullerr": one write is accepted completely AND reported as failed, everything after it succeeds.
 type budgetWriter struct {
 	budget int
 	mode   string
@@ -377,7 +378,7 @@ func (w *budgetWriter) err() error {
 }
 
 func (w *budgetWriter) Write(p []byte) (int, error) {
-	if w.failed && w.mode != "once" && w.mode != "onceshort" {
+	if w.failed && w.mode != "once" && w.mode != "onceshort" && w.mode != "fullerr" {
 		return 0, w.err()
 	}
 	if w.failed { // modes "once" / "onceshort": a transient fault, the destination accepts everything again afterwards
@@ -389,6 +390,10 @@ func (w *budgetWriter) Write(p []byte) (int, error) {
 		return len(p), nil
 	}
 	w.failed = true
+	if w.mode == "fullerr" { // the destination takes the whole write and reports an error all the same (once)
+		w.got += len(p)
+		return len(p), w.err()
+	}
 	if w.mode == "short" || w.mode == "shortwrite" || w.mode == "onceshort" {
 		n := w.budget - w.got
 		w.got += n
@@ -460,7 +465,7 @@ func runWFault(rec *WFaultRec) {
 		}
 	}
 	for _, k := range ks {
-		for _, mode := range []string{"short", "next", "once", "onceshort", "shortwrite", "eof"} {
+		for _, mode := range []string{"short", "next", "once", "onceshort", "fullerr", "shortwrite", "eof"} {
 			w := &budgetWriter{budget: k, mode: mode}
 			f := WFault{K: k, Mode: mode}
 			var s2 *smf.SMF
